@@ -226,3 +226,34 @@ Definition variant_ok (v : vdecl) : Prop :=
   | VTuple [t] => supported t
   | VTuple _ => True
   end.
+
+(* ------------------------------------------------------------------ well-formed Varlink types *)
+(* The IDL grammar has no nested optional: ??T is not a Varlink type. *)
+Fixpoint varlink_wf (t : idl_ty) : bool :=
+  match t with
+  | TOptional x => match x with TOptional _ => false | _ => varlink_wf x end
+  | TArray x | TMap x => varlink_wf x
+  | TObject fs =>
+      (fix go (fs : list (string * idl_ty * comments)) : bool :=
+         match fs with
+         | [] => true
+         | x :: r => let '(_, t, _) := x in varlink_wf t && go r
+         end) fs
+  | _ => true
+  end.
+
+(* Known class (open finding C16.nested_option_roundtrip): an Option row applied, possibly through
+   transparent wrappers, to a type that is itself described as optional *)
+Definition describes_optional (t : rust_ty) : bool :=
+  match type_of t with Some (TOptional _) => true | _ => false end.
+Fixpoint nested_option (t : rust_ty) : bool :=
+  match t with
+  | RApp c a => (match ctor_row c with ShOptional => describes_optional a | _ => false end) || nested_option a
+  | _ => false
+  end.
+Fixpoint users_wf (t : rust_ty) : bool :=
+  match t with
+  | RUser d => varlink_wf d
+  | RApp _ a => users_wf a
+  | _ => true
+  end.
